@@ -12,6 +12,7 @@ use minidump_writer::minidump_writer::MinidumpWriter;
 
 pub struct Plan {
     pub scen: Scenario,
+    pub blame_late: bool,          // with a crash context: blame a thread at list position >= 20 when there is one
     pub crash: u8,                 // 0 none, 1 blamed main, 2 blamed other thread, 3 blamed thread that cannot be attached
     pub limit: Option<u64>,
     pub sanitize: bool,
@@ -50,8 +51,9 @@ pub fn gen_plan(rng: &mut Rng, focus: &str, tier: &str, case_idx: u64) -> Plan {
         let off = if rng.chance(1, 3) { pages * 4096 - len } else { rng.below(pages * 4096 - len + 1) };
         lines.push(format!("appmem {idx} {off} {len}"));
     }
-    Plan { scen: Scenario { threads, lines }, crash: if force_k1 { 3 } else if focus == "c05" || focus == "c07" { rng.below(4) as u8 } else if rng.chance(1, 3) { rng.range(1, 2) as u8 } else { 0 },
-           limit: if focus == "c06" { if rng.chance(2, 3) { Some(*rng.pick(&[1u64, 1000, 100_000, 200_000, 300_000, 1 << 30])) } else { None } } else if rng.chance(1, 6) { Some(1) } else { None },
+    let blame_late = focus == "c06" && many && rng.chance(1, 2);
+    Plan { scen: Scenario { threads, lines }, blame_late, crash: if blame_late { 2 } else if force_k1 { 3 } else if focus == "c05" || focus == "c07" { rng.below(4) as u8 } else if rng.chance(1, 3) { rng.range(1, 2) as u8 } else { 0 },
+           limit: if blame_late { Some(1) } else if focus == "c06" { if rng.chance(2, 3) { Some(*rng.pick(&[1u64, 1000, 100_000, 200_000, 300_000, 1 << 30])) } else { None } } else if rng.chance(1, 6) { Some(1) } else { None },
            sanitize: rng.chance(1, if focus == "c12" { 1 } else { 5 }),
            skip: if focus == "c20" { rng.range(1, 3) as u8 } else if rng.chance(1, 8) { 1 } else { 0 }, napp }
 }
@@ -62,7 +64,7 @@ pub struct Configured { pub writer: MinidumpWriter, pub blamed: i32, pub crash: 
 
 pub fn configure(rng: &mut Rng, plan: &Plan, target: &Target) -> Configured {
     let nth = target.tids.len();
-    let blamed = match plan.crash { 2 if nth > 0 => { let cands: Vec<usize> = (0..nth).filter(|i| plan.scen.threads[*i].kind != Kind::NullSp && plan.scen.threads[*i].kind != Kind::Exiter).collect(); if cands.is_empty() { target.pid } else { target.tids[*rng.pick(&cands)] } }
+    let blamed = match plan.crash { 2 if nth > 0 => { let cands: Vec<usize> = (0..nth).filter(|i| plan.scen.threads[*i].kind != Kind::NullSp && plan.scen.threads[*i].kind != Kind::Exiter && (!plan.blame_late || *i >= 21 || nth < 23)).collect(); if cands.is_empty() { target.pid } else { target.tids[*rng.pick(&cands)] } }
                                     3 => { let cands: Vec<usize> = (0..nth).filter(|i| plan.scen.threads[*i].kind == Kind::NullSp).collect(); if cands.is_empty() { target.pid } else { target.tids[*rng.pick(&cands)] } }
                                     _ => target.pid };
     let mut writer = MinidumpWriter::new(target.pid, blamed);
@@ -71,7 +73,7 @@ pub fn configure(rng: &mut Rng, plan: &Plan, target: &Target) -> Configured {
     let crash = if plan.crash > 0 {
         let mut cc = gen_crash_context(rng, blamed);
         let bidx = target.tids.iter().position(|t| *t == blamed);
-        let sp = match rng.below(5) { 0 => rng.next(), 1 => 0, 2 => u64::MAX - 7, _ => match bidx { Some(i) => target.fact_hex(&format!("t{i}.sp")), None => anon[1] + 0x800 } };
+        let sp = match if plan.blame_late { 4 } else { rng.below(5) } { 0 => rng.next(), 1 => 0, 2 => u64::MAX - 7, _ => match bidx { Some(i) => target.fact_hex(&format!("t{i}.sp")), None => anon[1] + 0x800 } };
         let ip = match rng.below(8) { 0 => rng.next() >> 17, 1 => anon[0], 2 => anon[0] + 1, 3 => anon[0] + 3 * 4096 - 1, 4 => anon[0] + *rng.pick(&[127u64, 128, 129, 3 * 4096 - 128, 3 * 4096 - 129, 3 * 4096 - 127]), 5 => anon[2] + 0x10, 6 => anon[0] + 3 * 4096, _ => target.fact_hex("blk") };
         cc.inner.context.uc_mcontext.gregs[libc::REG_RSP as usize] = sp as i64;
         cc.inner.context.uc_mcontext.gregs[libc::REG_RIP as usize] = ip as i64;
